@@ -35,8 +35,11 @@ TARGETS = [
     ("parentrm", "", "", "parentrm b a"),
     # the admin removes a publisher at the publication server: two stores (access aggregate, content log)
     ("pubrm", "", "", "pubrm b"),
+    # the snapshot task (UpdateSnapshots, at start-up and every 24 h): every aggregate store rewrites snapshot.json, the
+    # publication server's write-ahead log store replaces its change sets by a new snapshot
+    ("snapshots", "", "", "task snapshots"),
 ]
-QUICK_ALWAYS = ["roa", "rollactivate", "cainit", "pubrm"]
+QUICK_ALWAYS = ["roa", "rollactivate", "cainit", "pubrm", "snapshots"]
 # single failed write while the aggregate cache lags one command behind: `<op> ;; <earlier op>` runs the
 # earlier (accepted) command right before the operation with no read in between (domain kvcold)
 STALE_TARGETS = [
